@@ -78,11 +78,20 @@ func (p *Path) FalseAt(e *Event, t *Term) bool {
 	return true
 }
 
+// unwrapStack: errorsx.WithStack(x) / errors.WithStack(x) is nil iff x is nil.
+func unwrapStack(t *Term) *Term {
+	for t != nil && t.Op == "call" && (t.Name == "errorsx.WithStack" || t.Name == "errors.WithStack") && len(t.Args) == 1 {
+		t = t.Args[0]
+	}
+	return t
+}
+
 // IsNil: the path knows t == nil.
 func (p *Path) IsNil(t *Term) bool {
 	if t == nil {
 		return false
 	}
+	t = unwrapStack(t)
 	return t.Op == "nil" || p.Holds(atomEQ(t, tNil), true)
 }
 
@@ -91,15 +100,21 @@ func (p *Path) NonNil(t *Term) bool {
 	if t == nil || t.Op == "nil" {
 		return false
 	}
+	t = unwrapStack(t)
+	if t.Op == "nil" {
+		return false
+	}
 	if p.Holds(atomEQ(t, tNil), false) {
 		return true
 	}
 	return builtError(t)
 }
 func (p *Path) IsNilAt(e *Event, t *Term) bool {
+	t = unwrapStack(t)
 	return t.Op == "nil" || p.HoldsAt(e, atomEQ(t, tNil), true)
 }
 func (p *Path) NonNilAt(e *Event, t *Term) bool {
+	t = unwrapStack(t)
 	if t.Op == "nil" {
 		return false
 	}
